@@ -26,6 +26,9 @@ CHECKS = {
  "C17": ("other", "Structural necessary conditions of an orderly stop, decided on every path: no owned channel endpoint is maybe-initialised at any JoinHandle::join (field-sensitive forward dataflow over MIR after drop elaboration; 5 join sites) and the dispatcher drops its senders before joining; every loop around a blocking recv/send leaves on the call's Err and the reader/analysis/writer loops also on the stop flag; every spawned thread's handle is joined on the normal paths of its owner; no reachable println!/print! and no unwrap/expect on a write/flush result (the two writer sites are recorded known findings F5b, the statistics println! was repaired); the writer tests the stop flag only between batches. Does not decide bounded time or liveness under all schedules.",
          "Trusted: rustc nightly front end (drop elaboration), /verif/driver, fpv.mir maybe_init dataflow, call graph.",
          "maybe-initialised dataflow at join sites; SCC/loop-exit control dependence; must-pass-through for joins; who-may-call for _print", "DESIGN.md §3 C17"),
+ "C04": ("other", "Inventory + discharge: every panic-capable or UB-capable construct (unwrap/expect, panic!/unreachable!, bounds checks, range/Vec/Captures indexing, division, unsafe calls, println!) on a path reachable from main in the RELEASE configuration is listed from MIR (about 370 sites) and must be discharged by a checked local rule (infallible String formatting; flume statistics sends; environment/start-up resources; constant regexes; fixed-size loads and constant indices under inferred slice min-length contracts that are verified at every call site incl. chunks_exact sizes; set_len after read_exact with the same n; non-zero constant divisors), or be individually justified in justified/c04.json (one exact site key, one reason, optional machine-checked `requires` clause such as a dominance fact, a guarded-by fact, an FSM precedence fact or a classification-table fact), or be a recorded known finding (F5b, F6a-d). Any new site, or a site whose rule/requires clause stops holding, is reported. Also the scanner's range-check/loop-progress conditions for termination. This is a reviewed discharge table, not a proof of panic freedom; time bound and memory exhaustion are not decided.",
+         "Trusted: rustc nightly front end, /verif/driver (release-flag extraction), fpv call graph (CHA; generated derive/clap code excluded), the reviewed reasons in justified/c04.json.",
+         "MIR inventory over the release call graph + per-site discharge rules (slice length contracts, dominance, provenance) + reviewed exception table", "DESIGN.md §3 C04"),
 }
 
 NOT_APPLICABLE = {
